@@ -27,7 +27,7 @@ ASSUMPTIONS = ["names are handed to the builder as str; what must come back is t
 
 # staged features (switched on by the commits that bring the model side / the known-findings entry)
 SEND_PATH = True     # C14: follow the datagrams through Zeroconf.async_send (needs the driver command `sendlens`)
-RETRY_CHECK = True   # C01: packets() again on a builder that rejected the message (finding D32)
+RETRY_CHECK = True   # packets() again on a builder that rejected the message (finding D32)
 
 EXC = {"NamePartTooLongException": "NamePartTooLongException", "IndexError": "IndexError", "error": "struct.error", "ValueError": "ValueError"}
 
@@ -258,10 +258,30 @@ def boundary_seek(gm, rng):
     return gm
 
 
+def inq(gm, prop):
+    """inside the quantifier of `prop`: C14 says nothing about how names are spelled, so a name handed over without its trailing
+    dot is judged too (C01: "fully-qualified names (trailing dot, ...)": byte-exact comparison only)"""
+    return gm.in_quantifier(dotless_ok=(prop == "C14"))
+
+
+def qsplit_seek(gm, rng):
+    """steer the first datagram of a question-section split onto 1460 / 1461 octets by the length of the first label (second pass
+    using the implementation's own first datagram)"""
+    kind, pk = impl_packets(gm)
+    if kind != "ok" or len(pk) < 2:
+        return gm
+    q0 = gm.qs[0]
+    lab, rest = q0.name.split(".", 1)
+    n = len(lab) + (1460 - len(pk[0])) + rng.choice([0, 1, 1, 1, 2, -1])
+    if 1 <= n <= 63:
+        q0.name = "x" * n + "." + rest
+    return gm
+
+
 def predicates(res, gm, pk, strict_lines, prop, case=None, text_lines=None):
     """the property's own sentences on the implementation's packets: -> list of (sig, what), every predicate that fails
     (a known finding about one datagram must not stop the judgement of the rest of the message)"""
-    if not gm.in_quantifier():
+    if not inq(gm, prop):
         res.count("oracle:skipped-outside-quantifier")
         return []
     res.count("oracle:judged")
@@ -418,9 +438,19 @@ def run_prop(ctx, prop, size_bias=None):
             if i % 4 == 0:
                 m = boundary_seek(m, rng)
             if i % 50 == 7:
-                # label lengths around the limit, inside an otherwise valid message
+                # label lengths around the limit, inside an otherwise valid message: behind everything else, or -- the label is
+                # then the first thing write_name looks at in a fresh packet, nothing has been written when it raises -- as the
+                # first label of the first entry
                 L = rng.choice([63, 64, 64, 65])
-                m.qs.append(W.Ent("q", "a" * L + "." + rng.choice(["_http._tcp.local.", "local."]), 12, 1, False))
+                q = W.Ent("q", "a" * L + "." + rng.choice(["_http._tcp.local.", "local."]), 12, 1, False)
+                if rng.random() < 0.5:
+                    m.qs.insert(0, q)
+                else:
+                    m.qs.append(q)
+            if i % 60 == 11:
+                # a query that splits inside its question section, names without trailing dot, first datagram on 1460 / 1461
+                m = qsplit_seek(g.qsplit_message(), rng)
+                kind = "valid:qsplit"
         cases.append((kind, m))
     # implementation
     impl = []
@@ -432,8 +462,8 @@ def run_prop(ctx, prop, size_bias=None):
         o = keep.get("out")  # the library object is dropped at once: a thorough run holds > 100 000 messages
         impl.append(r)
         sent.append(impl_send(o) if (SEND_PATH and prop == "C14" and ik == "ok" and o is not None) else None)
-        again.append(impl_again(o) if (RETRY_CHECK and prop == "C01" and ik == "err" and iv == "NamePartTooLongException" and o is not None
-                                       and m.in_quantifier()) else None)
+        again.append(impl_again(o) if (RETRY_CHECK and ik == "err" and iv == "NamePartTooLongException" and o is not None
+                                       and inq(m, prop)) else None)
         del o, keep
     lines = []
     idx = []
@@ -509,13 +539,13 @@ def run_prop(ctx, prop, size_bias=None):
             res.count("correspondence:skipped-no-driver")
         # O
         if ik == "err":
-            if m.in_quantifier() and iv != "NamePartTooLongException":
+            if inq(m, prop) and iv != "NamePartTooLongException":
                 res.violate("%s:unexpected-exception:%s" % (prop, iv), "the builder raised %s on a message inside the quantifier" % iv, case)
             elif iv == "BuilderDoesNotTerminate":
                 res.violate("%s:builder-does-not-terminate" % prop, "packets() keeps emitting datagrams without consuming entries", case)
-            elif m.in_quantifier() and iv == "NamePartTooLongException" and m.max_label() <= 63:
+            elif inq(m, prop) and iv == "NamePartTooLongException" and m.max_label() <= 63:
                 res.violate("%s:rejects-short-labels" % prop, "NamePartTooLongException although no label exceeds 63 bytes", case)
-            elif not m.in_quantifier():
+            elif not inq(m, prop):
                 res.count("oracle:skipped-outside-quantifier")
             if again[k] is not None and again[k] != ("err", "NamePartTooLongException"):
                 # the message was rejected; asked again, the same builder must not hand out datagrams for it
@@ -535,7 +565,7 @@ def run_prop(ctx, prop, size_bias=None):
                 io = str(len(sv)) if sk == "ok" else "err " + sv
                 if io != send_out[k].strip():
                     res.disagree("send", case, io, send_out[k][:100])
-            if m.in_quantifier():
+            if inq(m, prop):
                 if sk != "ok":
                     res.violate("%s:send-path-raises:%s" % (prop, sv), "Zeroconf.async_send raised %s for a message the builder turned into datagrams" % sv, case)
                 elif sv != iv:
